@@ -1,8 +1,579 @@
-import CpProofs.C03Lemmas
+import CpProofs.C03Body
+import CpProofs.C03Query
 /-!
   C03 — query-string and form parameters reach the handler exactly as sent.
+
+  The theorems are about `CpModel.UrlEnc` (the transcription of `_parse_qs`, `parse_query_string`,
+  urllib's `unquote_plus`, `_cpreqbody.unquote_plus`, `process_urlencoded`, `RequestBody.process`
+  and the glue in `Request._do_respond`).  They quantify over
+
+   * every list of (key, value) texts — any length, any characters, empty keys/values, repeats;
+   * every *encoding style*: per character (query) / per byte (body) literal, `+` for a space, or
+     `%XY` with an independent upper/lower choice for every hex digit — subject only to the five
+     reserved characters `% + & ; =` not being written literally;
+   * every mix of `&` and `;` separators, with any number of empty segments (`a=1&&;b=2`, leading
+     and trailing separators), and a blank value written with or without its `=`;
+   * every charset codec with a round-trip law (`Codec`; instances UTF-8 from core Lean's verified
+     codec and Latin-1 on code points ≤ 255), any position of that charset in `attempt_charsets`
+     as long as the earlier attempts fail;
+   * every split of the pairs between query string and body.
+
+  What the handler must see is specified independently of the code by `valuesOf` (the values sent
+  for a key, in wire order) and `shape` (none / scalar / list).
 -/
 namespace CpProofs.C03
 open CpModel.UrlEnc
+
+/-! ## codec instances -/
+
+theorem utf8Enc_ascii (c : Char) (h : isAscii c = true) : utf8Enc [c] = [charByte c] := by
+  have h1 : c.toNat < 128 := by simpa [isAscii] using h
+  have h2 : c.val.toNat ≤ 127 := by
+    have : c.toNat = c.val.toNat := rfl
+    omega
+  have hs : c.utf8Size = 1 := by
+    unfold Char.utf8Size
+    have : c.val ≤ 127 := by
+      rw [UInt32.le_iff_toNat_le]; exact h2
+    simp [this]
+  unfold utf8Enc
+  simp only [List.flatMap_cons, List.flatMap_nil, List.append_nil]
+  rw [String.utf8EncodeChar_eq_singleton hs]
+  rfl
+
+/-- UTF-8 as a query-string charset. -/
+def utf8Ascii : AsciiCodec where
+  toCodec := utf8Codec
+  enc_nil := rfl
+  enc_append := fun a b => by simp [utf8Codec, utf8Enc]
+  enc_ascii := utf8Enc_ascii
+
+/-- Latin-1 as a query-string charset (`request.query_string_encoding = 'latin-1'`). -/
+def latin1Ascii : AsciiCodec where
+  toCodec := latin1Codec
+  enc_nil := rfl
+  enc_append := fun a b => by simp [latin1Codec, latin1Enc]
+  enc_ascii := fun c _ => rfl
+
+/-- `recode_path_qs`: a query string the client wrote as UTF-8 arrives as the text it encodes. -/
+theorem recodeQS_utf8 (t : Text) : recodeQS (utf8Enc t) = t := by
+  simp [recodeQS, utf8_rt]
+
+/-! ## a query string made of segments -/
+
+/-- One piece between separators: nothing, or a key with a value; a blank value may be written
+    without the `=`. -/
+inductive QSeg where
+  | empty
+  | pair (ks vs : List (Char × CStyle)) (withEq : Bool)
+
+def QSeg.enc (C : Codec) : QSeg → Text
+  | .empty => []
+  | .pair ks vs true => encText C ks ++ '=' :: encText C vs
+  | .pair ks _ false => encText C ks
+
+def QSeg.Ok (C : AsciiCodec) : QSeg → Prop
+  | .empty => True
+  | .pair ks vs withEq =>
+    (∀ x ∈ ks, CStyleOk x ∧ C.ok x.1) ∧ (∀ x ∈ vs, CStyleOk x ∧ C.ok x.1) ∧
+    (withEq = false → vs = [] ∧ ks ≠ [])
+
+/-- The (key, value) texts the segment carries. -/
+def QSeg.plain : QSeg → Option (Text × Text)
+  | .empty => none
+  | .pair ks vs _ => some (plainText ks, plainText vs)
+
+/-- The query string as text: segments joined by `&` (flag true) or `;` (flag false). -/
+def queryWire (C : Codec) (first : QSeg) (rest : List (Bool × QSeg)) : Text :=
+  joinSegs '&' ';' (first.enc C) (rest.map fun p => (p.1, p.2.enc C))
+
+/-- The pairs a list of segments carries, in wire order. -/
+def qPairs (segs : List QSeg) : List (Text × Text) := segs.filterMap QSeg.plain
+
+theorem QSeg.enc_safe (C : AsciiCodec) (s : QSeg) (h : s.Ok C) :
+    '&' ∉ s.enc C.toCodec ∧ ';' ∉ s.enc C.toCodec := by
+  cases s with
+  | empty => simp [QSeg.enc]
+  | pair ks vs withEq =>
+    have hk := encText_safe C.toCodec ks (fun x hx => (h.1 x hx).1)
+    have hv := encText_safe C.toCodec vs (fun x hx => (h.2.1 x hx).1)
+    cases withEq with
+    | true =>
+      simp only [QSeg.enc, List.mem_append, List.mem_cons, not_or]
+      exact ⟨⟨hk.1, by decide, hv.1⟩, ⟨hk.2.1, by decide, hv.2.1⟩⟩
+    | false => exact ⟨hk.1, hk.2.1⟩
+
+theorem pairStrings_queryWire (C : AsciiCodec) (first : QSeg) (rest : List (Bool × QSeg))
+    (hok : ∀ s ∈ first :: rest.map (·.2), s.Ok C) :
+    pairStrings (queryWire C.toCodec first rest) = (first :: rest.map (·.2)).map (QSeg.enc C.toCodec) := by
+  have h0 := QSeg.enc_safe C first (hok first (by simp))
+  have hr : ∀ p ∈ rest.map (fun p => (p.1, p.2.enc C.toCodec)), '&' ∉ p.2 ∧ ';' ∉ p.2 := by
+    intro p hp
+    simp only [List.mem_map] at hp
+    obtain ⟨q, hq, rfl⟩ := hp
+    exact QSeg.enc_safe C q.2 (hok q.2 (List.mem_cons_of_mem _ (List.mem_map.2 ⟨q, hq, rfl⟩)))
+  have : pairStrings (queryWire C.toCodec first rest) = pieces '&' ';' (queryWire C.toCodec first rest) := rfl
+  rw [this, queryWire, pieces_joinSegs _ _ _ _ h0 hr]
+  simp
+
+/-- The loop of `_parse_qs` over the segments: empty ones are skipped, every other one adds exactly
+    its (key, value), decoded. -/
+theorem parseQsPairs_segs (C : AsciiCodec) (segs : List QSeg) (hok : ∀ s ∈ segs, s.Ok C) (d : Params) :
+    parseQsPairs C.dec (segs.map (QSeg.enc C.toCodec)) d = some (addAll d (qPairs segs)) := by
+  induction segs generalizing d with
+  | nil => simp [parseQsPairs, addAll, qPairs]
+  | cons s segs ih =>
+    have hs := hok s (by simp)
+    have ih := fun d => ih (fun t ht => hok t (by simp [ht])) d
+    cases s with
+    | empty =>
+      have hq : qPairs (QSeg.empty :: segs) = qPairs segs := rfl
+      simpa [parseQsPairs, QSeg.enc, hq] using ih d
+    | pair ks vs withEq =>
+      have hk := encText_safe C.toCodec ks (fun x hx => (hs.1 x hx).1)
+      have uk := query_unquote_styled C ks hs.1
+      have uv := query_unquote_styled C vs hs.2.1
+      have hq : qPairs (QSeg.pair ks vs withEq :: segs) = (plainText ks, plainText vs) :: qPairs segs := rfl
+      cases withEq with
+      | true =>
+        have hne : (encText C.toCodec ks ++ '=' :: encText C.toCodec vs).isEmpty = false := by
+          cases encText C.toCodec ks <;> simp
+        simp only [List.map_cons, QSeg.enc, parseQsPairs, hne, Bool.false_eq_true, if_false,
+          partition1_append_sep '=' _ _ hk.2.2, Option.getD_some, uk, uv, ih, hq]
+        simp [addAll]
+      | false =>
+        have hv := hs.2.2 rfl
+        have hne : (encText C.toCodec ks).isEmpty = false := by
+          have := encText_ne_nil C ks (fun x hx => (hs.1 x hx).2) hv.2
+          cases hks : encText C.toCodec ks with
+          | nil => exact absurd hks this
+          | cons _ _ => rfl
+        have uv0 : unquotePlusText C.dec [] = some [] := by
+          have := query_unquote_styled C [] (by simp)
+          simpa [encText, plainText] using this
+        rw [hq]
+        simp only [List.map_cons, QSeg.enc, parseQsPairs, hne, Bool.false_eq_true, if_false,
+          partition1_of_not_mem '=' _ hk.2.2, Option.getD_none, uk, uv0, ih, hv.1]
+        simp [addAll, plainText]
+
+/-! ## image map -/
+
+theorem partition1_some {α : Type} [DecidableEq α] (sep : α) (s a b : List α)
+    (h : partition1 sep s = (a, some b)) : s = a ++ sep :: b ∧ sep ∉ a := by
+  induction s generalizing a with
+  | nil => simp [partition1] at h
+  | cons c s ih =>
+    simp only [partition1] at h
+    by_cases hc : c = sep
+    · subst hc
+      simp only [if_true, Prod.mk.injEq, Option.some.injEq] at h
+      obtain ⟨rfl, rfl⟩ := h
+      simp
+    · simp only [hc, if_false, Prod.mk.injEq] at h
+      obtain ⟨rfl, h2⟩ := h
+      have := ih (partition1 sep s).1 (by rw [← h2])
+      constructor
+      · simp only [List.cons_append, List.cons.injEq, true_and]
+        exact this.1
+      · simp only [List.mem_cons, not_or]
+        exact ⟨fun e => hc e.symm, this.2⟩
+
+def Digits (s : Text) : Prop := s ≠ [] ∧ (∀ c ∈ s, isDigit c = true) ∧ s.length ≤ maxCoordDigits
+
+/-- **Only an exact `N,M`** (1–18 ASCII digits each) takes the image-map branch. -/
+theorem imageMap_iff (s a b : Text) :
+    imageMap? s = some (a, b) ↔ s = a ++ ',' :: b ∧ Digits a ∧ Digits b := by
+  unfold imageMap?
+  constructor
+  · intro h
+    cases hp : partition1 ',' s with
+    | mk a' ob =>
+      rw [hp] at h
+      cases ob with
+      | none => simp at h
+      | some b' =>
+        simp only at h
+        split at h
+        · rename_i hc
+          simp only [Option.some.injEq, Prod.mk.injEq] at h
+          obtain ⟨rfl, rfl⟩ := h
+          have := partition1_some ',' s a' b' hp
+          refine ⟨this.1, ⟨?_, ?_, hc.2.2.1⟩, ⟨?_, ?_, hc.2.2.2.2.2⟩⟩
+          · intro e; simp [e] at hc
+          · simpa using hc.2.1
+          · intro e; simp [e] at hc
+          · simpa using hc.2.2.2.2.1
+        · simp at h
+  · rintro ⟨rfl, ha, hb⟩
+    have hnot : ',' ∉ a := by
+      intro hm
+      have := ha.2.1 ',' hm
+      simp [isDigit] at this
+    rw [partition1_append_sep ',' a b hnot]
+    have h1 : a.isEmpty = false := by
+      cases a with
+      | nil => exact absurd rfl ha.1
+      | cons _ _ => rfl
+    have h2 : b.isEmpty = false := by
+      cases b with
+      | nil => exact absurd rfl hb.1
+      | cons _ _ => rfl
+    have h3 : a.all isDigit = true := by simpa using ha.2.1
+    have h4 : b.all isDigit = true := by simpa using hb.2.1
+    simp [h1, h2, h3, h4, ha.2.2, hb.2.2]
+
+/-- A query string consisting solely of `N,M` is read as coordinates `x`, `y` (ints), by design. -/
+theorem C03_imagemap (dec : Bytes → Option Text) (a b : Text) (ha : Digits a) (hb : Digits b) :
+    parseQueryString dec (a ++ ',' :: b) =
+      some [(['x'], .one (.int (decNat a))), (['y'], .one (.int (decNat b)))] := by
+  unfold parseQueryString
+  rw [(imageMap_iff _ a b).2 ⟨rfl, ha, hb⟩]
+
+/-- Anything else — in particular `1,2x` or `1,2=v`, which a prefix match would accept — is parsed
+    as ordinary parameters. -/
+theorem C03_imagemap_only_exact (dec : Bytes → Option Text) (s : Text)
+    (h : ¬ ∃ a b, s = a ++ ',' :: b ∧ Digits a ∧ Digits b) :
+    parseQueryString dec s = parseQsPairs dec (pairStrings s) [] := by
+  unfold parseQueryString
+  cases hm : imageMap? s with
+  | none => rfl
+  | some ab =>
+    obtain ⟨a, b⟩ := ab
+    exact absurd ⟨a, b, (imageMap_iff s a b).1 hm⟩ h
+
+theorem decNat_snoc (s : Text) (c : Char) : decNat (s ++ [c]) = decNat s * 10 + (c.toNat - '0'.toNat) := by
+  simp [decNat, List.foldl_append]
+
+example : imageMap? "1,2x".toList = none ∧ imageMap? "1,2=v".toList = none ∧
+    imageMap? "12,345".toList = some ("12".toList, "345".toList) ∧ decNat "345".toList = 345 := by decide
+
+theorem not_imageMap_of_mem (s : Text) (c : Char) (hc : c ∈ s) (hd : isDigit c = false) (hcomma : c ≠ ',') :
+    imageMap? s = none := by
+  cases hm : imageMap? s with
+  | none => rfl
+  | some ab =>
+    obtain ⟨a, b⟩ := ab
+    obtain ⟨rfl, ha, hb⟩ := (imageMap_iff s a b).1 hm
+    simp only [List.mem_append, List.mem_cons] at hc
+    rcases hc with h | h | h
+    · rw [ha.2.1 c h] at hd; cases hd
+    · exact absurd h hcomma
+    · rw [hb.2.1 c h] at hd; cases hd
+
+/-! ## C03: the query string -/
+
+/-- **C03_qs_roundtrip.** For every list of segments (every multimap, every admissible style, every
+    separator mix, blanks with or without `=`) whose wire form is not exactly `N,M`:
+    `parse_query_string` succeeds and every key carries exactly the values sent for it, in wire
+    order — a scalar for one value, a list for several, blanks kept, nothing else present. -/
+theorem C03_qs_roundtrip (C : AsciiCodec) (first : QSeg) (rest : List (Bool × QSeg))
+    (hok : ∀ s ∈ first :: rest.map (·.2), s.Ok C)
+    (hnot : imageMap? (queryWire C.toCodec first rest) = none) :
+    parseQueryString C.dec (queryWire C.toCodec first rest)
+        = some (addAll [] (qPairs (first :: rest.map (·.2)))) ∧
+    ∀ key, lookup (addAll [] (qPairs (first :: rest.map (·.2)))) key
+        = shape (valuesOf key (qPairs (first :: rest.map (·.2)))) := by
+  constructor
+  · unfold parseQueryString
+    rw [hnot]
+    simp only
+    rw [pairStrings_queryWire C first rest hok, parseQsPairs_segs C _ hok]
+  · intro key
+    have := lookup_addAll [] WS_nil (qPairs (first :: rest.map (·.2))) key
+    simpa [lookup, atomsOpt] using this
+
+/-- The image-map exclusion is not needed as soon as one `=` is written (or any character that is
+    neither a digit nor a comma occurs). -/
+theorem not_imageMap_of_withEq (C : AsciiCodec) (first : QSeg) (rest : List (Bool × QSeg))
+    (h : ∃ ks vs, QSeg.pair ks vs true ∈ first :: rest.map (·.2)) :
+    imageMap? (queryWire C.toCodec first rest) = none := by
+  apply not_imageMap_of_mem _ '=' _ (by decide) (by decide)
+  obtain ⟨ks, vs, hm⟩ := h
+  simp only [queryWire, joinSegs, List.mem_append, List.mem_flatMap, List.mem_map]
+  simp only [List.mem_cons, List.mem_map] at hm
+  rcases hm with rfl | ⟨p, hp, hpe⟩
+  · left; simp [QSeg.enc]
+  · right
+    refine ⟨(p.1, p.2.enc C.toCodec), ⟨p, hp, rfl⟩, ?_⟩
+    rw [List.mem_cons]
+    right
+    show '=' ∈ p.2.enc C.toCodec
+    rw [hpe]
+    simp [QSeg.enc]
+
+/-- non-vacuity: `a=%C3%a9+x;b` (mixed hex case, `+`, `;`, blank without `=`) in UTF-8. -/
+example :
+    let first := QSeg.pair [('a', .lit)] [('é', .pct fun i => i == 0), (' ', .plus), ('x', .lit)] true
+    let rest := [(false, QSeg.pair [('b', .lit)] [] false)]
+    (∀ s ∈ first :: rest.map (·.2), s.Ok utf8Ascii) ∧
+    queryWire utf8Codec first rest = "a=%C3%a9+x;b".toList := by
+  refine ⟨?_, by decide⟩
+  intro s hs
+  simp only [List.map_cons, List.map_nil, List.mem_cons, List.not_mem_nil, or_false] at hs
+  rcases hs with rfl | rfl <;>
+    simp [QSeg.Ok, CStyleOk, utf8Ascii, utf8Codec]
+
+/-- **Query all-or-nothing**: `_parse_qs` fails (→ 404) exactly when some key or value of some
+    non-empty piece does not decode; otherwise every piece was decoded. -/
+theorem parseQsPairs_eq_none (dec : Bytes → Option Text) (l : List Text) (d : Params) :
+    parseQsPairs dec l d = none ↔
+      ∃ nv ∈ l, nv ≠ [] ∧ (unquotePlusText dec (partition1 '=' nv).1 = none ∨
+                          unquotePlusText dec ((partition1 '=' nv).2.getD []) = none) := by
+  induction l generalizing d with
+  | nil => simp [parseQsPairs]
+  | cons nv rest ih =>
+    simp only [parseQsPairs, List.mem_cons, exists_eq_or_imp]
+    by_cases he : nv = []
+    · subst he
+      simp [ih]
+    · have : nv.isEmpty = false := by
+        cases nv with
+        | nil => exact absurd rfl he
+        | cons _ _ => rfl
+      simp only [this, Bool.false_eq_true, if_false, ne_eq, he, not_false_eq_true, true_and]
+      cases hn : unquotePlusText dec (partition1 '=' nv).1 with
+      | none => simp
+      | some name =>
+        cases hv : unquotePlusText dec ((partition1 '=' nv).2.getD []) with
+        | none => simp
+        | some value => simp [ih]
+
+/-! ## C03: the form body -/
+
+/-- Decode already-unquoted key/value bytes with one charset. -/
+def decodePlain (dec : Bytes → Option Text) : List (Bytes × Bytes) → Option (List (Text × Text))
+  | [] => some []
+  | (k, v) :: rest =>
+    match dec k, dec v, decodePlain dec rest with
+    | some key, some value, some more => some ((key, value) :: more)
+    | _, _, _ => none
+
+theorem decodeAll_wirePairs (dec : Bytes → Option Text) (segs : List BSeg) (hok : ∀ s ∈ segs, s.Ok) :
+    decodeAll dec (segs.filterMap BSeg.wirePair) = decodePlain dec (segs.filterMap BSeg.plain) := by
+  induction segs with
+  | nil => rfl
+  | cons s segs ih =>
+    have hs := hok s (by simp)
+    have ih := ih (fun t ht => hok t (by simp [ht]))
+    cases s with
+    | empty => exact ih
+    | pair ks vs withEq =>
+      have e1 : (BSeg.pair ks vs withEq :: segs).filterMap BSeg.wirePair
+          = (encBytes ks, encBytes vs) :: segs.filterMap BSeg.wirePair := rfl
+      have e2 : (BSeg.pair ks vs withEq :: segs).filterMap BSeg.plain
+          = (plainBytes ks, plainBytes vs) :: segs.filterMap BSeg.plain := rfl
+      rw [e1, e2]
+      simp only [decodeAll, decodePlain, body_unquote_styled ks hs.1, body_unquote_styled vs hs.2.1, ih]
+      cases dec (plainBytes ks) <;> cases dec (plainBytes vs) <;>
+        cases decodePlain dec (segs.filterMap BSeg.plain) <;> rfl
+
+theorem decodePlain_enc (C : Codec) (pairs : List (Text × Text))
+    (hdom : ∀ kv ∈ pairs, (∀ c ∈ kv.1, C.ok c) ∧ (∀ c ∈ kv.2, C.ok c)) :
+    decodePlain C.dec (pairs.map fun kv => (C.enc kv.1, C.enc kv.2)) = some pairs := by
+  induction pairs with
+  | nil => rfl
+  | cons kv pairs ih =>
+    have h := hdom kv (by simp)
+    have ih := ih (fun p hp => hdom p (by simp [hp]))
+    simp only [List.map_cons, decodePlain, C.rt _ h.1, C.rt _ h.2, ih]
+
+theorem findSome?_append_of_none {α β : Type} (f : α → Option β) (pre : List α) (rest : List α)
+    (h : ∀ x ∈ pre, f x = none) : (pre ++ rest).findSome? f = rest.findSome? f := by
+  induction pre with
+  | nil => rfl
+  | cons x pre ih =>
+    simp only [List.cons_append, List.findSome?_cons, h x (by simp)]
+    exact ih (fun y hy => h y (by simp [hy]))
+
+/-- **C03_body_roundtrip.** For every codec with a round-trip law, every list of pairs the codec
+    can represent, every admissible byte-level style and separator mix: when the charset is the
+    first of `attempt_charsets` that decodes the whole body (in particular when it is declared, i.e.
+    first), `process_urlencoded` yields exactly the values sent per key, in wire order. -/
+theorem C03_body_roundtrip (C : Codec) (first : BSeg) (rest : List (Bool × BSeg))
+    (pairs : List (Text × Text))
+    (hok : ∀ s ∈ first :: rest.map (·.2), s.Ok)
+    (hplain : (first :: rest.map (·.2)).filterMap BSeg.plain = pairs.map fun kv => (C.enc kv.1, C.enc kv.2))
+    (hdom : ∀ kv ∈ pairs, (∀ c ∈ kv.1, C.ok c) ∧ (∀ c ∈ kv.2, C.ok c))
+    (pre post : List (Bytes → Option Text))
+    (hpre : ∀ d ∈ pre, decodeAll d (rawPairs (bodyWire first rest)) = none) :
+    processUrlencoded (pre ++ C.dec :: post) (bodyWire first rest) = some (addAll [] pairs) ∧
+    ∀ key, lookup (addAll [] pairs) key = shape (valuesOf key pairs) := by
+  constructor
+  · rw [processUrlencoded_eq, findSome?_append_of_none _ _ _ hpre, List.findSome?_cons,
+      rawPairs_bodyWire first rest hok, decodeAll_wirePairs _ _ hok, hplain, decodePlain_enc C pairs hdom]
+    rfl
+  · intro key
+    have := lookup_addAll [] WS_nil pairs key
+    simpa [lookup, atomsOpt] using this
+
+/-- non-vacuity: body `k=%e9+` declared Latin-1 (earlier attempt: none), and the same with an ASCII
+    attempt in front that fails on the byte 0xE9. -/
+example :
+    let first := BSeg.pair [(0x6B, .lit)] [(0xE9, .pct false false), (0x20, .plus)] true
+    (∀ s ∈ first :: ([] : List (Bool × BSeg)).map (·.2), s.Ok) ∧
+    bodyWire first [] = "k=%e9+".toList.map charByte ∧
+    [first].filterMap BSeg.plain = [("k".toList, "é ".toList)].map (fun kv => (latin1Codec.enc kv.1, latin1Codec.enc kv.2)) ∧
+    decodeAll (decode .ascii) (rawPairs (bodyWire first [])) = none := by
+  refine ⟨?_, by decide, by decide, by decide⟩
+  intro s hs
+  simp only [List.map_nil, List.mem_cons, List.not_mem_nil, or_false] at hs
+  subst hs
+  simp [BSeg.Ok, BStyleOk]
+
+/-- **C03_all_or_nothing (refusal).** `process_urlencoded` refuses (400) exactly when *every*
+    attempted charset fails on at least one key or value. -/
+theorem C03_all_or_nothing_refused (decs : List (Bytes → Option Text)) (body : Bytes) :
+    processUrlencoded decs body = none ↔
+      ∀ dec ∈ decs, ∃ kv ∈ rawPairs body,
+        dec (unquotePlusBytes kv.1) = none ∨ dec (unquotePlusBytes kv.2) = none := by
+  rw [processUrlencoded_eq]
+  simp only [Option.map_eq_none_iff, List.findSome?_eq_none_iff, decodeAll_eq_none]
+
+/-- **C03_all_or_nothing (acceptance).** When it accepts, one single charset — the first whose
+    attempt succeeds — decoded every key and every value; no parameter set mixes charsets or is
+    partially decoded. -/
+theorem C03_all_or_nothing_accepted (decs : List (Bytes → Option Text)) (body : Bytes) (p : Params)
+    (h : processUrlencoded decs body = some p) :
+    ∃ pre dec post ps, decs = pre ++ dec :: post ∧
+      (∀ d ∈ pre, decodeAll d (rawPairs body) = none) ∧
+      Decoded dec (rawPairs body) ps ∧ p = addAll [] ps := by
+  induction decs with
+  | nil => simp [processUrlencoded] at h
+  | cons dec more ih =>
+    simp only [processUrlencoded, decodePairs_eq] at h
+    cases hd : decodeAll dec (rawPairs body) with
+    | some ps =>
+      rw [hd] at h
+      simp only [Option.map_some, Option.some.injEq] at h
+      exact ⟨[], dec, more, ps, rfl, by simp, decodeAll_eq_some _ _ _ hd, h.symm⟩
+    | none =>
+      rw [hd] at h
+      simp only [Option.map_none] at h
+      obtain ⟨pre, dec', post, ps, e, hpre, hdec, hp⟩ := ih h
+      refine ⟨dec :: pre, dec', post, ps, by simp [e], ?_, hdec, hp⟩
+      intro d hdm
+      simp only [List.mem_cons] at hdm
+      rcases hdm with rfl | hdm
+      · exact hd
+      · exact hpre d hdm
+
+/-! ## C03: merge, and the whole request -/
+
+/-- **C03_merge.** Query parameters `qp` and body parameters `bp` (both as the parse loops build
+    them) are merged flat: per key the query-string values, then the body values, each group in wire
+    order; one value overall stays a scalar.  (`['1', ['2', '3']]`, finding F3, cannot occur.) -/
+theorem C03_merge (qp bp : List (Text × Text)) (key : Text) :
+    lookup (mergeBody (addAll [] qp) (addAll [] bp)) key = shape (valuesOf key (qp ++ bp)) := by
+  rw [lookup_mergeBody _ _ (WS_addAll [] WS_nil qp) (WS_addAll [] WS_nil bp)
+    (nodup_keys_addAll [] (by simp [keys]) bp),
+    lookup_addAll [] WS_nil, lookup_addAll [] WS_nil, valuesOf_append]
+  simp only [lookup, atomsOpt_none, List.nil_append, atomsOpt_shape]
+
+example : mergeBody (addAll [] [("a".toList, "1".toList)]) (addAll [] [("a".toList, "2".toList), ("a".toList, "3".toList)])
+    = [("a".toList, .many [.str "1".toList, .str "2".toList, .str "3".toList])] := by decide
+
+/-- The merge keeps image-map coordinates in front of body values of the same name. -/
+theorem C03_merge_imagemap (x y : Nat) (bp : List (Text × Text)) (key : Text) :
+    lookup (mergeBody [(['x'], .one (.int x)), (['y'], .one (.int y))] (addAll [] bp)) key =
+      shape ((if key = ['x'] then [Atom.int x] else if key = ['y'] then [Atom.int y] else []) ++ valuesOf key bp) := by
+  have hws : WS [(['x'], .one (.int x)), (['y'], .one (.int y))] := by
+    intro k v h
+    simp only [lookup] at h
+    split at h
+    · cases h; rfl
+    · split at h
+      · cases h; rfl
+      · cases h
+  rw [lookup_mergeBody _ _ hws (WS_addAll [] WS_nil bp) (nodup_keys_addAll [] (by simp [keys]) bp),
+    lookup_addAll [] WS_nil]
+  have e0 : lookup ([] : Params) key = none := rfl
+  rw [e0]
+  simp only [atomsOpt_none, List.nil_append, atomsOpt_shape]
+  congr 2
+  by_cases h1 : key = ['x']
+  · subst h1; rfl
+  · have h1' : ¬ ['x'] = key := fun e => h1 e.symm
+    by_cases h2 : key = ['y']
+    · subst h2; rfl
+    · have h2' : ¬ ['y'] = key := fun e => h2 e.symm
+      simp [lookup, h1, h2, h1', h2', atomsOpt_none]
+
+/-- **The handler sees a parameter set only as a whole.**  Whatever the request: the response is
+    404 exactly when the query string does not decode, 400 exactly when the query string decodes
+    and no attempted charset decodes the whole body, and in every other case the handler is called
+    with the complete query parameters merged with the completely decoded body parameters.  No
+    other status arises from parameter decoding. -/
+theorem C03_handle_cases (r : Req) :
+    (parseQueryString (decode r.qsEnc) (recodeQS r.qs) = none ∧ handle r = .status 404) ∨
+    (∃ qp, parseQueryString (decode r.qsEnc) (recodeQS r.qs) = some qp ∧
+      ((r.body = none ∧ handle r = .handler qp) ∨
+       (∃ att bytes, r.body = some (att, bytes) ∧
+          ((processUrlencoded (att.map decode) bytes = none ∧ handle r = .status 400) ∨
+           (∃ bp, processUrlencoded (att.map decode) bytes = some bp ∧
+              handle r = .handler (mergeBody qp bp)))))) := by
+  unfold handle
+  cases hq : parseQueryString (decode r.qsEnc) (recodeQS r.qs) with
+  | none => left; exact ⟨rfl, rfl⟩
+  | some qp =>
+    right
+    refine ⟨qp, rfl, ?_⟩
+    cases hb : r.body with
+    | none => left; exact ⟨rfl, rfl⟩
+    | some ab =>
+      obtain ⟨att, bytes⟩ := ab
+      right
+      refine ⟨att, bytes, rfl, ?_⟩
+      cases hp : processUrlencoded (att.map decode) bytes with
+      | none => left; exact ⟨rfl, by simp [hp]⟩
+      | some bp => right; exact ⟨bp, rfl, by simp [hp]⟩
+
+/-- **C03_request_roundtrip.** The whole path: a client writes query pairs in charset `qe`
+    (`request.query_string_encoding`, ASCII-compatible, raw non-ASCII characters as UTF-8) and body
+    pairs in charset `cb`, the first attempted body charset; any styles, separators and split.
+    Then the handler is called, and for every key it receives exactly the query-string values
+    followed by the body values, in wire order — scalar for one, list for several. -/
+theorem C03_request_roundtrip (Cq : AsciiCodec) (Cb : Codec) (qe cb : Charset) (more : List Charset)
+    (hqe : decode qe = Cq.dec) (hcb : decode cb = Cb.dec)
+    (qfirst : QSeg) (qrest : List (Bool × QSeg))
+    (bfirst : BSeg) (brest : List (Bool × BSeg)) (bpairs : List (Text × Text))
+    (hqok : ∀ s ∈ qfirst :: qrest.map (·.2), s.Ok Cq)
+    (hnot : imageMap? (queryWire Cq.toCodec qfirst qrest) = none)
+    (hbok : ∀ s ∈ bfirst :: brest.map (·.2), s.Ok)
+    (hplain : (bfirst :: brest.map (·.2)).filterMap BSeg.plain = bpairs.map fun kv => (Cb.enc kv.1, Cb.enc kv.2))
+    (hdom : ∀ kv ∈ bpairs, (∀ c ∈ kv.1, Cb.ok c) ∧ (∀ c ∈ kv.2, Cb.ok c)) :
+    ∃ kw, handle { qs := utf8Enc (queryWire Cq.toCodec qfirst qrest), qsEnc := qe,
+                   body := some (cb :: more, bodyWire bfirst brest) } = .handler kw ∧
+      ∀ key, lookup kw key = shape (valuesOf key (qPairs (qfirst :: qrest.map (·.2)) ++ bpairs)) := by
+  have hq := (C03_qs_roundtrip Cq qfirst qrest hqok hnot).1
+  have hb := (C03_body_roundtrip Cb bfirst brest bpairs hbok hplain hdom [] (more.map decode) (by simp)).1
+  refine ⟨mergeBody (addAll [] (qPairs (qfirst :: qrest.map (·.2)))) (addAll [] bpairs), ?_, ?_⟩
+  · unfold handle
+    simp only [recodeQS_utf8, hqe, hq, List.map_cons, hcb]
+    simp only [List.nil_append] at hb
+    rw [hb]
+  · intro key
+    exact C03_merge _ _ key
+
+/-- The same without a body (GET): the handler receives exactly the query parameters. -/
+theorem C03_request_roundtrip_query_only (Cq : AsciiCodec) (qe : Charset) (hqe : decode qe = Cq.dec)
+    (qfirst : QSeg) (qrest : List (Bool × QSeg))
+    (hqok : ∀ s ∈ qfirst :: qrest.map (·.2), s.Ok Cq)
+    (hnot : imageMap? (queryWire Cq.toCodec qfirst qrest) = none) :
+    ∃ kw, handle { qs := utf8Enc (queryWire Cq.toCodec qfirst qrest), qsEnc := qe, body := none }
+        = .handler kw ∧
+      ∀ key, lookup kw key = shape (valuesOf key (qPairs (qfirst :: qrest.map (·.2)))) := by
+  have hq := C03_qs_roundtrip Cq qfirst qrest hqok hnot
+  refine ⟨_, ?_, hq.2⟩
+  unfold handle
+  simp only [recodeQS_utf8, hqe, hq.1]
+
+/-- `decode` instances the two theorems above apply to. -/
+example : decode .utf8 = utf8Ascii.dec ∧ decode .latin1 = latin1Ascii.dec ∧
+    decode .utf8 = utf8Codec.dec ∧ decode .latin1 = latin1Codec.dec := ⟨rfl, rfl, rfl, rfl⟩
+
+/-- `attempt_charsets`: a declared charset is tried first, UTF-8 remains as the fallback. -/
+theorem attemptCharsets_declared (d : Charset) :
+    (attemptCharsets (some d) none).head? = some d ∧ Charset.utf8 ∈ attemptCharsets (some d) none := by
+  cases d <;> simp [attemptCharsets]
 
 end CpProofs.C03
